@@ -9,7 +9,8 @@
                    `.combine(self.structural_zeros)` applied (warm start or not)
   mask-at-bp       every parameter vector handed to model.belief_propagation inside a solver still carries the
                    mask: it is the setup potentials, a copy, or MASKED +/- anything (scaling and rebuilding lose it)
-  mask-not-scaled  inside a solver no masked vector is multiplied or divided (0*(-inf) = NaN)
+  mask-not-scaled  inside a solver a masked vector is multiplied / divided only while Factor.__mul__ sanitises scalar products
+                   (two cooperating sites: 0*(-inf) = NaN otherwise)
   inf-guard        the non-scalar path of Factor.__sub__ selects on infinities of the subtrahend
                    ((-inf) - (-inf) is NaN for every structural zero otherwise)
 Not decided: exact zero versus the 1e-100 floor Factor.log introduces in mle (tolerance), NaN-freedom, synthetic records.
@@ -77,9 +78,11 @@ class Mask(FactAnalysis):
                 if isinstance(n, ast.BinOp) and isinstance(n.op, (ast.Mult, ast.Div)):
                     for side in ((n.left, n.right) if isinstance(n.op, ast.Mult) else (n.left,)):
                         if self.place(side, st) is not None and self.masked(side, st):
-                            self.ctx.ob('mask-not-scaled', self.fi, n, False,
-                                        'the -inf masked vector `%s` is scaled: 0 * (-inf) is NaN and a negative factor turns the mask into '
-                                        '+inf; masked vectors may only be added to / subtracted from' % U(side))
+                            safe = scalar_mul_sanitised(self.ctx.repo)
+                            self.ctx.ob('mask-not-scaled', self.fi, n, safe,
+                                        'the -inf masked vector `%s` is scaled (0 * (-inf) is NaN, a negative factor gives +inf); %s'
+                                        % (U(side), 'tolerated because Factor.__mul__ sanitises scalar products with nan_to_num' if safe else
+                                           'and Factor.__mul__ no longer sanitises scalar products with nan_to_num: NaN reaches belief propagation'))
         for c in calls_in(e):
             f = c.func
             if self.setup is not None and is_setup_call(c, self.setup):
@@ -168,6 +171,17 @@ class CliqueArg(FactAnalysis):
             if ('HASZ', place) in st.facts or self.mentions_zeros(stmt.value):
                 keep.add(('HASZ', place))
         return keep
+
+
+def scalar_mul_sanitised(repo):
+    """the scalar branch of Factor.__mul__ wraps the product in np.nan_to_num (default: +-inf -> finite, nan -> 0)"""
+    fi = repo.func(FACTOR, 'Factor.__mul__')
+    for s in fi.body:
+        if isinstance(s, ast.If) and 'isscalar' in U(s.test):
+            for c in calls_in(s):
+                if U(c.func).split('.')[-1] == 'nan_to_num' and not c.keywords:
+                    return True
+    return False
 
 
 def run(ctx):
